@@ -322,7 +322,7 @@ def run(ctx):
                 ctx.viol_counts[fp] = ctx.viol_counts.get(fp, 0) + max(0, c - min(c, 3))
             if ctx.expired():
                 ctx.incomplete('deadline hit after %d of %d tasks' % (done, len(tasks)))
-                pool.pool.terminate()
+                pool.cancel()
                 break
     finally:
         pool.close()
